@@ -112,10 +112,28 @@ class FakeMethod:
         self.sent.append((srcip, dstip, data))
 
 
+# Verbosity is a dimension of every history: which identifier a flow gets must not depend on it.  Each history takes
+# the next level of this rotation (shifted by the check's seed); violations record it, replays restore it.
+VERBS = [0, 0, 3, 0, 2, 0, 3, 1]
+CUR = [0]
+_rot = [0]
+
+
+def next_verbose():
+    v = VERBS[_rot[0] % len(VERBS)]
+    _rot[0] += 1
+    CUR[0] = v
+    return v
+
+
 class RealWorld:
-    def __init__(self, maxch, chani):
+    def __init__(self, maxch, chani, verbose=0):
         import sshuttle.ssnet as ssnet
         import sshuttle.client as client
+        import sshuttle.helpers as helpers
+        self.helpers = helpers
+        self.saved_verbose = helpers.verbose
+        helpers.verbose = verbose
         self.ssnet, self.client = ssnet, client
         ssnet.set_non_blocking_io = lambda fd: None
         self.saved_max = ssnet.MAX_CHANNEL
@@ -142,6 +160,7 @@ class RealWorld:
 
     def restore(self):
         self.ssnet.MAX_CHANNEL = self.saved_max
+        self.helpers.verbose = self.saved_verbose
         self.client.time.time = self.saved_time
         self.client.dnsreqs.clear()
         self.client.udp_by_src.clear()
@@ -326,6 +345,7 @@ def run(ctx):
     import sshuttle.ssnet as ssnet
     import sshuttle.helpers as helpers
     helpers.verbose = 0
+    _rot[0] = int(ctx.seed) % len(VERBS)
     rng = ctx.rng
     ins, outs, meta = [], [], []
     probes = None
@@ -379,7 +399,7 @@ def run(ctx):
         default_max = ssnet.MAX_CHANNEL
 
         def history(maxch, chani, ops, tag):
-            w = RealWorld(maxch, chani)
+            w = RealWorld(maxch, chani, next_verbose())
             lines_in = ['new %d %d %d %d' % (maxch, probes, chani, 1000)]
             lines_out = ['ok']
             nontriv = False
@@ -414,7 +434,7 @@ def run(ctx):
                                                                             w.ssnet.CMD_UDP_OPEN)]
                                 if opens != [want_id] or any(ch == 0 for (ch, _c) in seen):
                                     ctx.violation('C06:wire:peer-sees-another-id-than-the-flow-owns',
-                                                  case=dict(kind='history', max=maxch, chani=chani, ops=rops + [li]),
+                                                  case=dict(kind='history', verbose=CUR[0], max=maxch, chani=chani, ops=rops + [li]),
                                                   expected='the open message arrives with id %d; no stream frame carries the control id 0' % want_id,
                                                   observed='peer decoded %r' % (seen,), kind='history')
                             if o.startswith('discarded'):
@@ -422,7 +442,7 @@ def run(ctx):
                                 # the whole id space was probed (MAX <= probes): refusing is right only if it is full
                                 if maxch <= probes and len(w.live()) < maxch:
                                     ctx.violation('C06:open:refused-although-an-id-is-free',
-                                                  case=dict(kind='history', max=maxch, chani=chani, ops=rops + [li]),
+                                                  case=dict(kind='history', verbose=CUR[0], max=maxch, chani=chani, ops=rops + [li]),
                                                   expected='a free id (only %d of %d in use)' % (len(w.live()), maxch),
                                                   observed='arrival discarded', kind='history')
                         elif kind == 'close':
@@ -437,11 +457,11 @@ def run(ctx):
                             want = [(f['kind'], n) for n, f in owners]
                             if sorted(got) != sorted(want):
                                 ctx.violation('C06:frame:reached-wrong-flow',
-                                              case=dict(kind='history', max=maxch, chani=chani, ops=rops + [li]),
+                                              case=dict(kind='history', verbose=CUR[0], max=maxch, chani=chani, ops=rops + [li]),
                                               expected='delivered to %r only' % (want,), observed=got, kind='history')
                     except Exception as e:  # noqa
                         ctx.violation('C06:%s:exception-%s' % (kind if kind != 'open' else 'open-' + arg, type(e).__name__),
-                                      case=dict(kind='history', max=maxch, chani=chani, ops=rops + ['%s %s' % (kind, arg)]),
+                                      case=dict(kind='history', verbose=CUR[0], max=maxch, chani=chani, ops=rops + ['%s %s' % (kind, arg)]),
                                       expected='arrival handled (flow opened or discarded)', observed=repr(e), kind='history')
                         lines_in.append('%s %s' % (kind, arg))
                         lines_out.append('exception %s' % type(e).__name__)
@@ -455,7 +475,7 @@ def run(ctx):
                     lost = [i for i in w.held() if not w.mux.channels.get(i)]
                     if lost:
                         ctx.violation('C06:history:held-association-has-no-registered-id',
-                                      case=dict(kind='history', max=maxch, chani=chani, ops=list(rops)),
+                                      case=dict(kind='history', verbose=CUR[0], max=maxch, chani=chani, ops=list(rops)),
                                       expected='every id in dnsreqs / udp_by_src registered in mux.channels (so that '
                                                'next_channel skips it)', observed='unregistered: %r' % lost, kind='history')
                         break
@@ -463,7 +483,7 @@ def run(ctx):
                     ids = [f['chan'] for f in w.live()]
                     if len(set(ids)) != len(ids) or any((not i) for i in ids):
                         ctx.violation('C06:history:ids-not-distinct',
-                                      case=dict(kind='history', max=maxch, chani=chani, ops=list(rops)),
+                                      case=dict(kind='history', verbose=CUR[0], max=maxch, chani=chani, ops=list(rops)),
                                       expected='pairwise distinct non-zero ids', observed=ids, kind='history')
                         break
                     if w.mux.chani == 1 and len(lines_in) > 2:
@@ -568,7 +588,7 @@ def replay(ctx, rep):
             out, r, ch = alloc_case(ssnet, case['max'], None, case['chani'], case['occ'], [], None)
             bad = r is not None and (r == 0 or r > case['max'] or r in case['occ'])
             return bad, out
-        w = RealWorld(case['max'], case['chani'])
+        w = RealWorld(case['max'], case['chani'], case.get('verbose', 0))
         try:
             for line in case['ops']:
                 if line == 'table':
